@@ -320,7 +320,9 @@ def run_case(c):
     Delta = float(np.max(np.linalg.norm(D, axis=1)))
     info['Delta'] = Delta
     if not Delta > 0:
-        add('C11:eval_nums_invalid', 'named points coincide: %s | %s' % (E, desc))
+        # all named points coincide (e.g. n = 1 with the iterate pinned to a bound and a collapsed point set): the
+        # conditioning of the point set is infinite and the property promises nothing about the fit
+        info['skipped_cond'] = True
         return viol, info
     W = np.hstack([np.ones((len(E), 1)), D / Delta])
     cond = float(np.linalg.cond(W))
